@@ -19,7 +19,7 @@ import (
 // position) and a packet size that changes between writes.
 
 type qOp struct {
-	Op  string `json:"op"` // add | bytes | byte | u16 | u32 | u64 | str | read | save | restore | discard | reset | write | w8 | w16 | w32 | w64 | wstr | size | readback
+	Op  string `json:"op"` // add | bytes | toend | byte | u16 | u32 | u64 | str | read | save | restore | discard | reset | write | w8 | w16 | w32 | w64 | wstr | size | readback
 	N   int    `json:"n,omitempty"`
 	EOM bool   `json:"eom,omitempty"`
 }
@@ -40,6 +40,7 @@ func (c15) ID() string { return "C15" }
 var c15Alphabet = []qOp{
 	{Op: "add", N: 1}, {Op: "add", N: 3, EOM: true}, {Op: "bytes", N: 1}, {Op: "bytes", N: 2}, {Op: "bytes", N: 4},
 	{Op: "u16"}, {Op: "save"}, {Op: "restore"}, {Op: "discard"}, {Op: "reset"},
+	{Op: "save", N: 1}, {Op: "restore", N: 1},
 }
 
 func c15EnumCount(tier string) int {
@@ -98,8 +99,11 @@ func (c15) Gen(r *Rand, idx int, tier string) interface{} {
 			switch c := r.Intn(100); {
 			case c < 25:
 				p.Ops = append(p.Ops, qOp{Op: "add", N: r.Intn(3*body + 1), EOM: r.Pct(30)})
-			case c < 45:
+			case c < 40:
 				p.Ops = append(p.Ops, qOp{Op: "bytes", N: r.Intn(2*body + 3)})
+			case c < 45:
+				// read exactly up to the end of what is queued (the cursor then sits behind the last packet)
+				p.Ops = append(p.Ops, qOp{Op: "toend"})
 			case c < 50:
 				p.Ops = append(p.Ops, qOp{Op: "byte"})
 			case c < 55:
@@ -113,14 +117,26 @@ func (c15) Gen(r *Rand, idx int, tier string) interface{} {
 			case c < 75:
 				p.Ops = append(p.Ops, qOp{Op: "read", N: r.Intn(body + 4)})
 			case c < 83:
-				p.Ops = append(p.Ops, qOp{Op: "save"})
+				p.Ops = append(p.Ops, qOp{Op: "save", N: r.Intn(3)})
 			case c < 90:
-				p.Ops = append(p.Ops, qOp{Op: "restore"})
+				p.Ops = append(p.Ops, qOp{Op: "restore", N: r.Intn(3)})
 			case c < 97:
 				p.Ops = append(p.Ops, qOp{Op: "discard"})
 			default:
 				p.Ops = append(p.Ops, qOp{Op: "reset"})
 			}
+		}
+		if r.Pct(15) {
+			// "look back" episode at a random place: remember a position, read everything, remember the end, go back,
+			// re-read a little, return to the end, then new data arrives and is read
+			a, b := r.Intn(3), r.Intn(3)
+			for b == a {
+				b = r.Intn(3)
+			}
+			ep := []qOp{{Op: "add", N: 1 + r.Intn(2*body)}, {Op: "save", N: a}, {Op: "bytes", N: r.Intn(3)}, {Op: "toend"}, {Op: "save", N: b},
+				{Op: "restore", N: a}, {Op: "bytes", N: 1 + r.Intn(2)}, {Op: "restore", N: b}, {Op: "add", N: 1 + r.Intn(2*body)}, {Op: "bytes", N: 1 + r.Intn(3)}}
+			at := r.Intn(len(p.Ops) + 1)
+			p.Ops = append(append(append([]qOp{}, p.Ops[:at]...), ep...), p.Ops[at:]...)
 		}
 	} else {
 		p.Side = "send"
@@ -245,6 +261,7 @@ func (c15) Run(plan interface{}, schedSeed uint64, replay []simrt.Choice, lenien
 				q.SetPosition(sv.pk, sv.data)
 				pos = sv.abs
 			}
+			var slots [3]*saved
 			// beforeRead: a read that is going to run out of bytes is only issued with a saved position at hand
 			beforeRead := func(n int) {
 				if pos+n > len(all) && sv == nil {
@@ -273,6 +290,11 @@ func (c15) Run(plan interface{}, schedSeed uint64, replay []simrt.Choice, lenien
 						fail("wrong-length", "Bytes returned wrong length", "Bytes(%d) returned %d bytes", o.N, len(got))
 					}
 					expectRead("Bytes", o.N, got, err)
+				case "toend":
+					if n := len(all) - pos; n > 0 {
+						got, err := q.Bytes(n)
+						expectRead("Bytes(to the end)", n, got, err)
+					}
 				case "byte":
 					beforeRead(1)
 					b, err := q.Byte()
@@ -311,12 +333,14 @@ func (c15) Run(plan interface{}, schedSeed uint64, replay []simrt.Choice, lenien
 					}
 					expectRead("Read", o.N, buf, err)
 				case "save":
+					// three independent saved positions (o.N); the latest one is also where a failed read goes back to
 					a, b := q.Position()
 					sv = &saved{a, b, pos}
+					slots[o.N%3] = sv
 				case "restore":
-					if sv != nil {
-						q.SetPosition(sv.pk, sv.data)
-						pos = sv.abs
+					if x := slots[o.N%3]; x != nil {
+						q.SetPosition(x.pk, x.data)
+						pos = x.abs
 					}
 				case "discard":
 					q.DiscardUntilCurrentPosition()
@@ -329,10 +353,10 @@ func (c15) Run(plan interface{}, schedSeed uint64, replay []simrt.Choice, lenien
 					}
 					bounds = nb
 					pos = 0
-					sv = nil // invalidated
+					sv, slots = nil, [3]*saved{} // invalidated
 				case "reset":
 					q.Reset()
-					all, pos, sv, bounds = nil, 0, nil, nil
+					all, pos, sv, bounds, slots = nil, 0, nil, nil, [3]*saved{}
 				}
 			}
 			// finally every unread byte must still be readable
